@@ -50,6 +50,11 @@ def mutate_text(p, rnd):
 
 DIRECTED = ["", "()", "(())", "()()", "a()", "()a", "a()b", "(|)", "a||b", "||", "(a|)b", "a(|b)", "()*", "()+", "()?", "(a|())",
             "a{1}", "(){2}", "[a]()", "(()|a)*"]
+# an escaped backslash in front of a letter that would otherwise be a shortcut, and escaped / plain spaces (judged on
+# strings over the characters these patterns talk about)
+DIRECTED2 = [r"\\d", r"\\s", r"\\w", r"a\\d", r"\\\d", r"\\\\d", r"(\\|a)\w", r"[\\d]", r"[\\]d", r"\ ", r"a\ b", r"a b", r"[ ]a", r"\d\ ",
+             r"\\ ", r"(\\d)*", r"\\d+", r"\\?d"]
+SIGMA2 = "\\d1 sa"
 
 
 def generate(tier, seed, work, stats):
@@ -64,6 +69,8 @@ def generate(tier, seed, work, stats):
     # degenerate patterns of the subset (empty pattern, empty groups and alternatives at every position): CPython decides
     for pat in DIRECTED:
         cases.append(dict(pat=pat, den=[], ast={}, family="directed"))
+    for pat in DIRECTED2:
+        cases.append(dict(pat=pat, den=[], ast={}, family="directed", sigma=SIGMA2))
     for c in cases:
         c["tier"] = tier
     return cases
@@ -90,6 +97,9 @@ def replay(case):
         keep = set(strings("quick"))
         ev["den"] = [s for s in case["den"] if s in keep]
     ss = strings(case.get("tier", "thorough"))
+    if case.get("sigma"):
+        import itertools
+        ss = ["".join(t) for n in range(4) for t in itertools.product(case["sigma"], repeat=n)]
     with warnings.catch_warnings():
         warnings.simplefilter("ignore")
         try:
